@@ -434,6 +434,21 @@ void profile_clone(const json& plan, Ctx& ctx) {
 			}
 			ctx.probe("clone_survived_restart", (long) clones.size());
 		}
+		else if (op == "DeleteClone") {
+			// the user removes the clone made last from the destination again (and goes on cloning)
+			if (clones.empty()) { stepNo++; continue; }
+			std::string nm = clones.back().first;
+			NiShape* c = D->FindBlockByName<NiShape>(nm);
+			if (c) {
+				D->DeleteShape(c);
+				ctx.probe("clone_deleted_again");
+				trace += "X";
+				ctx.sig.tag("delclone");
+			}
+			clones.pop_back();
+			cloneParts.erase(nm);
+			cloneStoredSnap.erase(nm);
+		}
 		else if (op == "DestroySrc") {
 			if (sameModel || !S) { stepNo++; continue; }
 			Obs before = observe(*D, ctx);
